@@ -10,14 +10,14 @@
       B2  concurrent histories recorded on one real object (goroutines, global atomic stamps) validated by
           TLC against ThresholdSigLin.tla: a history is accepted iff a linearisation exists (+ negative control)
 """
-import json, os, re, subprocess, sys
+import json, os, re, subprocess, sys, time
 sys.path.insert(0, os.path.join(os.path.dirname(os.path.abspath(__file__)), '..', 'tools'))
 import vlib
 from dkg import tlc_cases
 
 SPEC = os.path.join(vlib.SPECS, 'threshold')
-SEQ_INVS = ['AtMostTPlus1', 'CachedOnlyValid', 'NeverBadSignature']
-SEQ_PROPS = ['EnoughMonotone', 'SharesOnlyGrow', 'CacheStable']
+SEQ_INVS = ['AtMostTPlus1', 'CachedOnlyValid', 'NeverBadSignature', 'AbsInv']
+SEQ_PROPS = ['EnoughMonotone', 'SharesOnlyGrow', 'CacheStable', 'RefinesAbs']
 
 
 def seq_model(ck, tier, emit):
@@ -33,6 +33,24 @@ def seq_model(ck, tier, emit):
             for c in tlc_cases(res.out):
                 cases.append(dict(c, n=n, t=t))
     return cases
+
+
+def inductive(ck):
+    """Apalache: the invariant of the abstract share pool (ThresholdSigAbs.tla, refined by ThresholdSig.tla: RefinesAbs above) is inductive
+    for every group size 2..12 and every threshold (symbolic constants), and every step satisfies the action properties."""
+    runs = [('initialisation', ['--cinit=CInit', '--init=Init', '--inv=IndInv', '--length=0']),
+            ('consecution', ['--cinit=CInit', '--init=IndInit', '--inv=IndInv', '--length=1']),
+            ('action properties', ['--cinit=CInit', '--init=IndInit', '--inv=StepProps', '--length=1'])]
+    done = []
+    for label, args in runs:
+        t0 = time.time()
+        outcome, out = vlib.apalache(SPEC, 'ThresholdSigInd', args, timeout=900, name='tsind')
+        if outcome == 'Error':
+            raise vlib.Undecided('Apalache refutes the inductive invariant of the share pool (%s): the model is wrong\n%s' % (label, out[-1500:]))
+        done.append({'obligation': label, 'outcome': outcome, 'wall_s': round(time.time() - t0, 1)})
+    ck.cov['inductive_invariant_apalache'] = {'module': 'ThresholdSigInd', 'group_sizes': '2..12, every threshold 1..n-1 (symbolic)', 'obligations': done}
+    if any(d['outcome'] != 'NoError' for d in done):
+        ck.notes.append('Apalache did not complete every obligation of the inductive invariant (supplementary unbounded argument, not a verdict on the code)')
 
 
 def run_c06(tier):
@@ -117,6 +135,7 @@ def run_c18(tier):
     ck = vlib.Check('C18', tier, 'model_checking')
     seed = vlib.seed()
     seq_model(ck, 'quick', False)
+    inductive(ck)
     vh = vlib.build_vh()
     plans = [(4, 1, 4, 3, False), (3, 1, 2, 4, True), (5, 2, 8, 3, True), (4, 2, 3, 4, False)]
     count = 120 if tier == 'quick' else 2500
